@@ -252,7 +252,8 @@ func (listForSender *txListForSender) selectBatchTo(isFirstBatch bool, destinati
 		value := element.Value.(*WrappedTransaction)
 		txNonce := value.Tx.GetNonce()
 
-		if previousNonce > 0 && txNonce > previousNonce+1 {
+		isFirstInList := element == listForSender.items.Front()
+		if !isFirstInList && txNonce > previousNonce+1 {
 			listForSender.copyDetectedGap = true
 			journal.hasMiddleGap = true
 			break
